@@ -48,6 +48,28 @@ Example fixed_write_twice :
   | _ => False
   end.
 Proof. vm_compute. reflexivity. Qed.
+(** the same with PROPAGATED gradings: operation 1 is the box [8,16]x[0,8]x[0,8] with its corners listed
+    from another corner (local axis 0 runs against the x axis of operation 0, local axis 1 against y) and
+    carries no chops along its axes 1 and 2; operation 0 has a two-section chop along y.  The second file
+    equals the first; block 1 has the sections of operation 0 in reversed order. *)
+Definition store3 : list (nat * op) :=
+  [(0, {| o_pts := o_pts (box 0 nopat); o_pat := nopat; o_chops := [[2]; [1; 3]; [4]] |});
+   (1, {| o_pts := [(16, 8, 0); (8, 8, 0); (8, 0, 0); (16, 0, 0); (16, 8, 8); (8, 8, 8); (8, 0, 8); (16, 0, 8)]%Z;
+          o_pat := nopat; o_chops := [[5]; []; []] |})].
+Example fixed_write_twice_propagated :
+  let h := [Add 1; Add 0; Write; Write] in
+  match run fixed tb0 (init store3) h with
+  | ([EFile f1; EFile f2], None) =>
+      file_eqb f1 f2 = true
+      /\ map (fun b => snd b) (f_blocks f1) = [[[5]; [3; 1]; [4]]; [[2]; [1; 3]; [4]]]
+  | _ => False
+  end.
+Proof. vm_compute. split; reflexivity. Qed.
+(** the original code raised InconsistentGradingsError on the second write of this mesh *)
+Example original_write_twice_propagated :
+  run original tb0 (init store3) [Add 1; Add 0; Write; Write]
+  = (fst (run fixed tb0 (init store3) [Add 1; Add 0; Write]), Some E_inconsistent).
+Proof. vm_compute. reflexivity. Qed.
 Example original_write_twice :
   let h := [Add 0; Add 1; Write; Write] in
   match run original tb0 (init store2) h with
